@@ -245,6 +245,9 @@ func (r *c38Run) applyOp(op c38Op) {
 		r.cur = c38Missing
 	case "recreate":
 		if err = os.Remove(r.path); err == nil || errors.Is(err, os.ErrNotExist) {
+			// the file is absent for a moment: the loop may fingerprint exactly that state
+			// (it counts as a content of its own for the change-and-back pattern)
+			r.log = append(r.log, c38Ev{Kind: "op", Content: c38Missing})
 			err = os.WriteFile(r.path, []byte(c38Text(op.Content)), 0o600)
 		}
 		r.cur = op.Content
